@@ -22,7 +22,7 @@ suite=ok; go test -vet=off -count=1 ./... >$W/.suite.log 2>&1 || suite=FAIL
 suite2=ok; go test -vet=off -count=1 -tags noasmtest ./... >/dev/null 2>&1 || suite2=FAIL
 cp $D/demo_test.go $dir/zz_seed_demo_test.go
 with=pass; go test -vet=off -count=1 -run "^$tname" ./$dir/ >$W/.with.log 2>&1 || with=fail
-git stash -q -- $(git diff --name-only) 2>/dev/null || git checkout -q -- .
+git checkout -q -- .
 without=pass; go test -vet=off -count=1 -run "^$tname" ./$dir/ >$W/.without.log 2>&1 || without=fail
 verdict=BAD
 [ $b1 = ok ] && [ $b2 = ok ] && [ $suite = ok ] && [ $with = fail ] && [ $without = pass ] && verdict=GOOD
